@@ -4,6 +4,7 @@
 //!   ei <dec>        Int::encode           -> hex
 //!   rd <hexmsg> <defs> <type>   decode the message at ONE expected type under the given definitions -> ok | err
 //!   rt <kind> <value>  native Encode!/Decode! round trip of one scalar -> "ok <message hex> <value read back>"
+//!   rds <hexmsg> <defs> <type>  as rd, with short error messages (the wasm32 default): -> ok | err   (a panic prints `panic`)
 //!   st <scenario>   subtype memo scenario (see subtype_case) -> per query "<shared><fresh>"
 //!   dn <hex>        Nat::decode           -> "ok <dec> <consumed>" | "err"
 //!   di <hex>        Int::decode           -> "ok <dec> <consumed>" | "err"
@@ -154,6 +155,7 @@ fn main() {
             "rt" => roundtrip_case(&p[1], &p[2]),
             "st" => subtype_case(&p[1]),
             "rd" => refdecode_case(&p[1], &p[2], &p[3]),
+            "rds" => refdecode_short(&p[1], &p[2], &p[3]),
             "h" => history_case(&p[1]),
             "dv" => derive_orders(),
             // quota corpus: "q <case> <dq|-> <sq|->" decodes message #case at its Rust type under the given quotas
@@ -322,6 +324,14 @@ mod tyx {
                     let modes = if k == "fq" { vec![FuncMode::Query] } else { vec![] };
                     TypeInner::Func(Function { modes, args, rets }).into()
                 }
+                "c" => {
+                    self.eat(b'(');
+                    let args = self.list(b">");
+                    self.eat(b'>');
+                    let t = self.ty();
+                    self.eat(b')');
+                    TypeInner::Class(args, t).into()
+                }
                 "s" => {
                     let mut ms = Vec::new();
                     self.eat(b'(');
@@ -406,5 +416,17 @@ fn roundtrip_case(kind: &str, val: &str) -> String {
         "u128" => rt!(val.parse::<u128>().unwrap(), u128, |w: &u128| w.to_string()),
         "i128" => rt!(val.parse::<i128>().unwrap(), i128, |w: &i128| w.to_string()),
         _ => "bad kind".to_string(),
+    }
+}
+
+fn refdecode_short(hexmsg: &str, defs: &str, ty: &str) -> String {
+    let bytes = hexd(hexmsg);
+    let env = tyx::parse_env(defs);
+    let t = tyx::P { s: ty.as_bytes(), i: 0 }.ty();
+    let mut config = candid::DecoderConfig::new();
+    config.set_full_error_message(false);
+    match candid::IDLArgs::from_bytes_with_types_with_config(&bytes, &env, &[t], &config) {
+        Ok(_) => "ok".to_string(),
+        Err(_) => "err".to_string(),
     }
 }
